@@ -14,15 +14,27 @@ def _solve(args):
   idx, timeout_ms, seed = args
   o = _OBLS[idx]
   t0 = time.time()
-  s = z3.Solver()
-  s.set('timeout', timeout_ms)
-  if seed:
-    s.set('random_seed', seed)
-  s.add(*o.formula())
-  try:
-    r = s.check()
-  except z3.Z3Exception as e:  # pylint: disable=broad-except
-    return idx, 'unknown', time.time() - t0, 'z3 exception: %s' % e, None
+  r = z3.unknown
+  # small portfolio: default (MBQI + E-matching), then E-matching only
+  # z3's verdict on quantified VCs depends on internal state (observed: `unknown` in a long
+  # sequence, `unsat` in 10 ms when the same VC is asked again), so several short attempts
+  # with different options/seeds are made; any `unsat` is a proof.
+  attempts = ({}, {'smt.mbqi': False}, {'smt.random_seed': 1 + seed}, {'smt.mbqi': False, 'smt.random_seed': 2 + seed},
+              {'smt.random_seed': 3 + seed, 'smt.qi.eager_threshold': 100.0})
+  for opts in attempts:
+    s = z3.Solver()
+    s.set('timeout', timeout_ms)
+    for k, v in opts.items():
+      s.set(k, v)
+    s.add(*o.formula())
+    try:
+      r = s.check()
+    except z3.Z3Exception as e:  # pylint: disable=broad-except
+      return idx, 'unknown', time.time() - t0, 'z3 exception: %s' % e, None
+    if r == z3.unsat or (r == z3.sat and 'smt.mbqi' not in opts):
+      break
+    if r == z3.sat:
+      r = z3.unknown   # a model found with MBQI off is not trusted
   dt = time.time() - t0
   if r == z3.unsat:
     return idx, 'proved', dt, '', None
@@ -103,7 +115,7 @@ def _second(args):
 
 
 def discharge(obligations, timeout_s=60, jobs=16, seed=0, use_cvc5=True,
-              first_ms=3000, phase2=True):
+              first_ms=2000, phase2=True):
   """Sets .status/.backend/.seconds/.model on each obligation.
 
   Phase 1: in-process z3, sequential, short budget (VCs normally take ms).
